@@ -35,12 +35,20 @@ struct Obs {
 	void reset() { *this = Obs{}; }
 	void error(std::string e) { if(errors.size() < 20) { errors.push_back(std::move(e)); } }
 	// returns true if this event must throw
+	int context = -1;                                  // operation kind the harness is executing (set by the state machine)
+	bool (*veto)(int context, unsigned kind) = nullptr; // recorded known findings: (operation, event kind) pairs that are not injected
+	bool vetoed = false; long vetoed_count = 0;
+	bool paused = false;  // events caused by the harness itself (building argument temporaries) are neither counted nor faulted
 	bool event(unsigned kind, char const* name) {
-		if((fault_mask & kind) == 0) { return false; }
+		if(paused || (fault_mask & kind) == 0) { return false; }
 		++events;
-		if(fault_at != 0 && events == fault_at && !fault_fired) { fault_fired = true; fault_kind = name; return true; }
+		if(fault_at != 0 && events == fault_at && !fault_fired) {
+			if(veto != nullptr && veto(context, kind)) { vetoed = true; ++vetoed_count; fault_kind = name; return false; }
+			fault_fired = true; fault_kind = name; fault_context = context; fault_event_kind = kind; return true;
+		}
 		return false;
 	}
+	int fault_context = -1; unsigned fault_event_kind = 0;
 	long copies_and_moves() const { return ctor_copy + ctor_move + assign_copy + assign_move; }
 };
 inline Obs& obs() { static Obs o; return o; }
